@@ -6,9 +6,11 @@ import (
 	"bytes"
 	"crypto/md5"
 	"crypto/sha1"
+	"errors"
 	"io"
 	"strconv"
 
+	"github.com/goreleaser/nfpm/v2"
 	v "github.com/goreleaser/nfpm/v2/internal/zzverif"
 	"github.com/goreleaser/nfpm/v2/internal/zzverif/scen"
 )
@@ -28,7 +30,14 @@ func Verif_C10_DebSign() {
 		calls++
 		return sig, nil
 	}
-	typ := []string{"", "origin", "maint", "archive"}[v.NondetChoice("sigtype", 4)]
+	ti := v.NondetChoice("sigtype", 5)
+	typ := []string{"", "origin", "maint", "archive", ""}[ti]
+	if ti == 4 {
+		// any other word is an invalid debsign signature type
+		typ = v.NondetStringRange("sigtype.word", 1, 6)
+		v.Assume(v.AllIn(typ, "a-zA-Z"))
+		v.Assume(typ != "origin" && typ != "maint")
+	}
 	sc.Info.Deb.Signature.Type = typ
 	sc.Info.Deb.Compression = verifDebComp[v.NondetChoice("compression", len(verifDebComp))]
 	dpkgsig := v.NondetBool("dpkg-sig")
@@ -38,6 +47,13 @@ func Verif_C10_DebSign() {
 	var buf bytes.Buffer
 	err := Packager("deb").Package(sc.Info, &buf)
 	v.Reach("C10.deb.ran")
+	if ti == 4 && !dpkgsig {
+		// debsign with a type that is not origin/maint/archive: no package, and the
+		// error is a signing failure that wraps the invalid-type error
+		var sf *nfpm.ErrSigningFailure
+		v.Assert(err != nil && errors.As(err, &sf), "deb-invalid-signature-type-is-a-signing-failure")
+		return
+	}
 	v.Assert(err == nil, "deb-signed-package-builds")
 	if err != nil {
 		return
